@@ -61,5 +61,34 @@ def apply():
         if fn not in core._PATCH_REGISTRATIONS:
             core._PATCH_REGISTRATIONS[fn] = core.with_realized_args(fn)
 
+    # frozenset(...) under tracing always builds CrossHair's LinearSet, whose __hash__ can come back as a non-int
+    # ("TypeError: __hash__ method should return an integer" when urllib3 hashes a PoolKey holding the frozen
+    # proxy-header set): no native run does that.  Concrete elements -> the real frozenset.
+    ch_frozenset = core._PATCH_REGISTRATIONS.get(frozenset)
+
+    def concrete(x):
+        if isinstance(x, CrossHairValue):
+            return False
+        if type(x) is tuple:
+            return all(concrete(y) for y in x)
+        return type(x) in (int, float, str, bool, bytes, type(None), frozenset)
+
+    def safe_frozenset(*a):
+        if not a:
+            return frozenset()
+        with NoTracing():
+            itr = a[0]
+            ok = not isinstance(itr, CrossHairValue)
+        if ok:
+            items = list(itr)
+            with NoTracing():
+                if all(concrete(x) for x in items):
+                    return frozenset(items)
+            return ch_frozenset(items)
+        return ch_frozenset(*a)
+
+    if ch_frozenset is not None:
+        core._PATCH_REGISTRATIONS[frozenset] = safe_frozenset
+
     core._PATCH_REGISTRATIONS[format] = safe_format
     core._PATCH_REGISTRATIONS[str.__mod__] = safe_percent
